@@ -170,6 +170,32 @@ fn transcript<C: S>(g: &str, seed: u64, m: &mut Map<String, Value>) {
     for t in [0u64, 1_700_000_000_000, u64::MAX] {
         m.insert(format!("{}/pok-y/{}", g, t), json!(hx(<C as BlsSignatureProof>::compute_y(u, t).to_repr())));
     }
+    // pairing products that contain the point at infinity, and verdicts on proofs whose blinded commitment cancels
+    {
+        let k = &ks[3].1;
+        let pk = k.public_key();
+        let sig = k.sign(SignatureSchemes::Basic, &ms[1]).unwrap();
+        let s = *sig.as_raw_value();
+        let id_s = <C as Pairing>::Signature::identity();
+        let id_p = <C as Pairing>::PublicKey::identity();
+        let pairs: Vec<(&str, Vec<(<C as Pairing>::Signature, <C as Pairing>::PublicKey)>)> = vec![
+            ("one-pair", vec![(s, pk.0)]),
+            ("with-identity-signature-pair", vec![(s, pk.0), (id_s, pk.0)]),
+            ("with-identity-key-pair", vec![(s, pk.0), (s, id_p)]),
+            ("only-identity", vec![(id_s, id_p)]),
+            ("three-pairs", vec![(s, pk.0), (s + s, pk.0), (s, pk.0 + pk.0)]),
+        ];
+        for (n, p) in pairs {
+            m.insert(format!("{}/pairing-product/{}", g, n), json!(hx(<C as Pairing>::pairing(&p).to_bytes())));
+        }
+        let y = ProofCommitmentChallenge::<C>::from_hash(b"xb forged");
+        let h = <C as HashToPoint>::hash_to_point(&ms[1], <C as BlsSignatureBasic>::DST);
+        let forged = ProofOfKnowledge::<C>::Basic { u: -(h * y.0), v: s };
+        m.insert(format!("{}/pok-forged/u-cancels-challenge", g), json!(forged.verify(pk, &ms[1], y).is_ok()));
+        let forged2 = ProofOfKnowledge::<C>::Basic { u: -(h * y.0), v: h };
+        m.insert(format!("{}/pok-forged/u-cancels-challenge-v-arbitrary", g), json!(forged2.verify(pk, &ms[1], y).is_ok()));
+        m.insert(format!("{}/pok-forged/trait-level", g), json!(<C as BlsSignatureProof>::verify(-(h * y.0), h, pk.0, y.0, &ms[1], <C as BlsSignatureBasic>::DST).is_ok()));
+    }
     // pairing result bytes (they feed the time lock key derivation)
     let gt = <C as Pairing>::pairing(&[(u, ks[3].1.public_key().0)]);
     m.insert(format!("{}/pairing-bytes", g), json!(hx(gt.to_bytes())));
